@@ -1,0 +1,81 @@
+//! Verification hooks for property C12, compiled only with `--cfg csl_verif` (never in normal builds).
+//!
+//! H12: direct pass-throughs to the external primitives the key / witness / EMIP-3 wrappers are built on
+//! (cryptoxide ed25519, pbkdf2, chacha20poly1305; ed25519-bip32; bech32), so that the correspondence
+//! harness can tabulate the primitives independently of the wrappers. Nothing in the library calls these.
+use bech32::{FromBase32, ToBase32};
+use cryptoxide::chacha20poly1305::ChaCha20Poly1305;
+use cryptoxide::ed25519;
+use cryptoxide::hmac::Hmac;
+use cryptoxide::pbkdf2::pbkdf2;
+use cryptoxide::sha2::Sha512;
+use ed25519_bip32::{DerivationScheme, XPrv, XPub};
+use std::convert::TryInto;
+
+pub fn ed_keypair_pk(seed: &[u8]) -> Vec<u8> {
+    let s: [u8; 32] = seed.try_into().unwrap();
+    ed25519::keypair(&s).1.to_vec()
+}
+pub fn ed_sign(seed: &[u8], msg: &[u8]) -> Vec<u8> {
+    let s: [u8; 32] = seed.try_into().unwrap();
+    let (kp, _) = ed25519::keypair(&s);
+    ed25519::signature(msg, &kp).to_vec()
+}
+pub fn ed_ext_pub(ext: &[u8]) -> Vec<u8> {
+    let e: [u8; 64] = ext.try_into().unwrap();
+    ed25519::extended_to_public(&e).to_vec()
+}
+pub fn ed_sign_ext(ext: &[u8], msg: &[u8]) -> Vec<u8> {
+    let e: [u8; 64] = ext.try_into().unwrap();
+    ed25519::signature_extended(msg, &e).to_vec()
+}
+pub fn ed_verify(pk: &[u8], msg: &[u8], sig: &[u8]) -> bool {
+    let p: [u8; 32] = pk.try_into().unwrap();
+    let s: [u8; 64] = sig.try_into().unwrap();
+    ed25519::verify(msg, &p, &s)
+}
+pub fn xprv_public(xprv: &[u8]) -> Vec<u8> {
+    let b: [u8; 96] = xprv.try_into().unwrap();
+    XPrv::from_bytes_verified(b).unwrap().public().as_ref().to_vec()
+}
+pub fn xprv_derive(xprv: &[u8], index: u32) -> Vec<u8> {
+    let b: [u8; 96] = xprv.try_into().unwrap();
+    XPrv::from_bytes_verified(b).unwrap().derive(DerivationScheme::V2, index).as_ref().to_vec()
+}
+pub fn xpub_derive(xpub: &[u8], index: u32) -> Option<Vec<u8>> {
+    XPub::from_slice(xpub).unwrap().derive(DerivationScheme::V2, index).ok().map(|p| p.as_ref().to_vec())
+}
+pub fn xprv_normalize3(bytes: &[u8]) -> Vec<u8> {
+    let b: [u8; 96] = bytes.try_into().unwrap();
+    XPrv::normalize_bytes_force3rd(b).as_ref().to_vec()
+}
+pub fn pbkdf2_sha512(password: &[u8], salt: &[u8], iterations: u32, out_len: usize) -> Vec<u8> {
+    let mut mac = Hmac::new(Sha512::new(), password);
+    let mut out = vec![0u8; out_len];
+    pbkdf2(&mut mac, salt, iterations, &mut out);
+    out
+}
+pub fn aead_enc(key: &[u8], nonce: &[u8], data: &[u8]) -> (Vec<u8>, Vec<u8>) {
+    let mut tag = [0u8; 16];
+    let mut out = vec![0u8; data.len()];
+    ChaCha20Poly1305::new(key, nonce, &[]).encrypt(data, &mut out, &mut tag);
+    (out, tag.to_vec())
+}
+pub fn aead_dec(key: &[u8], nonce: &[u8], ct: &[u8], tag: &[u8]) -> Option<Vec<u8>> {
+    let mut out = vec![0u8; ct.len()];
+    if ChaCha20Poly1305::new(key, nonce, &[]).decrypt(ct, &mut out, tag) { Some(out) } else { None }
+}
+pub fn b32_to_base32(bytes: &[u8]) -> Vec<u8> {
+    bytes.to_base32().iter().map(|u| u.to_u8()).collect()
+}
+pub fn b32_from_base32(u5s: &[u8]) -> Option<Vec<u8>> {
+    let d: Vec<bech32::u5> = u5s.iter().map(|b| bech32::u5::try_from_u8(*b).unwrap()).collect();
+    Vec::<u8>::from_base32(&d).ok()
+}
+pub fn b32_encode(hrp: &str, u5s: &[u8]) -> Option<String> {
+    let d: Vec<bech32::u5> = u5s.iter().map(|b| bech32::u5::try_from_u8(*b).unwrap()).collect();
+    bech32::encode(hrp, d).ok()
+}
+pub fn b32_decode(s: &str) -> Option<(String, Vec<u8>)> {
+    bech32::decode(s).ok().map(|(h, d)| (h, d.iter().map(|u| u.to_u8()).collect()))
+}
